@@ -63,10 +63,56 @@ def _global_decls(tree) -> Set[str]:
     return out
 
 
+_KNOWN_CLASS_ATTRS = None
+
+
+def _known_class_attr(cls_name: str, attr: str) -> bool:
+    """was ``<Class>.<attr>`` a class attribute of the pinned tree, in whatever module the class lived then?  (A class that
+    was moved to another module keeps the names the rules talk about.)"""
+    global _KNOWN_CLASS_ATTRS
+    if _KNOWN_CLASS_ATTRS is None:
+        from .oracles.inventory import NAMES
+        _KNOWN_CLASS_ATTRS = {k.split(':', 1)[1] for k in NAMES if ':' in k and '.' in k.split(':', 1)[1]}
+    return '%s.%s' % (cls_name, attr) in _KNOWN_CLASS_ATTRS
+
+
+def _is_const_display(e) -> bool:
+    if isinstance(e, ast.Constant):
+        return True
+    if isinstance(e, ast.Tuple) and e.elts:
+        return all(_is_const_display(x) for x in e.elts)
+    if isinstance(e, ast.UnaryOp) and isinstance(e.op, ast.USub) and isinstance(e.operand, ast.Constant):
+        return True
+    return False
+
+
+def _scalar_literal(v, depth=0) -> Optional[ast.expr]:
+    """the display of an immutable constant made of ints / strings / bytes / floats / bools / None and tuples of these"""
+    if depth > 3:
+        return None
+    if type(v) in (int, str, bytes, float, bool) or v is None:
+        return ast.Constant(value=v)
+    if type(v) is tuple and v and len(v) <= 64:
+        elts = [_scalar_literal(x, depth + 1) for x in v]
+        if any(x is None for x in elts):
+            return None
+        return ast.Tuple(elts=elts, ctx=ast.Load())
+    return None
+
+
+def _bool_dict_display(v) -> Optional[ast.expr]:
+    """``{True: a, False: b}`` with scalar values, as the pair display ``(b, a)`` that ``[bool(c)]`` indexes the same way"""
+    if type(v) is dict and set(v) == {True, False} and all(type(k) is bool for k in v):
+        a, b = _scalar_literal(v[False], 1), _scalar_literal(v[True], 1)
+        if a is not None and b is not None:
+            return ast.Tuple(elts=[a, b], ctx=ast.Load())
+    return None
+
+
 def _literal_only(e: ast.expr) -> bool:
     for n in ast.walk(e):
         if not isinstance(n, (ast.Constant, ast.BinOp, ast.UnaryOp, ast.operator, ast.unaryop, ast.Name,
-                              ast.Attribute, ast.Load, ast.Tuple)):
+                              ast.Attribute, ast.Load, ast.Tuple, ast.Subscript, ast.Slice)):
             return False
     return True
 
@@ -83,7 +129,9 @@ class _Normalizer:
         self._collect_properties()
         for m in self.repo.modules.values():
             self.m = m
-            if self.props:
+            self._each_function(m, self._strip_reporting_try)
+            self._each_function(m, self._inline_context_managers)
+            if self.props or self.class_props:
                 self._each_function(m, self._inline_properties)
         for m in self.repo.modules.values():
             self.m = m
@@ -105,10 +153,324 @@ class _Normalizer:
             self._each_function(m, self._prune_constant_tests)
             self._each_function(m, self._desugar_function)
             self._each_function(m, self._copy_propagate)
+            if self.props or self.class_props:
+                self._field_class_cache = None      # helpers are inlined by now: factories have become constructor calls
+                self._each_function(m, self._inline_properties)
             self._each_function(m, self._fold_function)
+            self._each_function(m, self._data_driven)
+            self._each_function(m, self._desugar_function)
             self._each_function(m, self._order_comparisons)
             self._each_function(m, self._positional_calls)
             self._each_function(m, self._truth_contexts)
+
+    # ------------------------------------------------------------------ 9. data-driven code over constant tables
+    UNROLL_MAX = 24
+
+    def _data_driven(self, fnode, cls, local):
+        """Code driven by a constant table reads as the code the table stands for:
+
+        * ``[E for x in (c1, c2)]`` -> ``[E[c1], E[c2]]`` (also with tuple targets over rows of constants); a starred display in a
+          call (``f(*[a, b])``) is spliced;
+        * ``for x in (c1, c2): BODY`` -> ``BODY[c1]; BODY[c2]``; a body whose only exit is ``if C: ...; break`` becomes nested
+          ``if``s (the ``else`` clause of the loop ends up where no ``break`` was taken);
+        * ``getattr(o, 'name')`` -> ``o.name``; the statement ``setattr(o, 'name', v)`` -> ``o.name = v``;
+        * ``(a, b)[bool(c)]`` / ``(a, b)[c]`` with ``c`` a comparison or ``not`` -> ``b if c else a``.
+        Only literal sequences of constants of at most UNROLL_MAX items (after constant folding) are unrolled."""
+        me = self
+
+        def pure_display(x) -> bool:
+            """constants, names and attribute chains, and tuples of these: reading them later instead of when the display was
+            built gives the same value as long as the loop body does not rebind what they name"""
+            if _is_const_display(x) or isinstance(x, ast.Name):
+                return True
+            if isinstance(x, ast.Attribute):
+                return _is_simple(x)
+            if isinstance(x, ast.Tuple) and x.elts:
+                return all(pure_display(y) for y in x.elts)
+            if isinstance(x, ast.BinOp) and isinstance(x.op, (ast.Add, ast.Sub, ast.Mult, ast.BitOr, ast.BitAnd)):
+                return pure_display(x.left) and pure_display(x.right)
+            if isinstance(x, ast.Lambda):
+                # a function value: pure as long as its body only reads its own parameters and module-level names
+                params = {a.arg for a in x.args.args}
+                return not x.args.vararg and not x.args.kwarg and not x.args.kwonlyargs and not x.args.defaults and \
+                    all(not (isinstance(y, ast.Name) and y.id in local and y.id not in params) for y in ast.walk(x.body))
+            return False
+
+        def table_display(it):
+            """the display a loop iterates, seen through: a local bound once to a display; a module-level name bound once to
+            a display nothing writes to; ``zip(d1, d2, ...)`` and ``enumerate(d[, start])`` of such displays"""
+            if isinstance(it, (ast.Tuple, ast.List)):
+                return it
+            if isinstance(it, ast.Name):
+                if it.id in local:
+                    binds = [n for n in ast.walk(fnode) if isinstance(n, ast.Assign) and len(n.targets) == 1
+                             and isinstance(n.targets[0], ast.Name) and n.targets[0].id == it.id]
+                    stores = [n for n in ast.walk(fnode) if isinstance(n, ast.Name) and n.id == it.id and isinstance(n.ctx, (ast.Store, ast.Del))]
+                    params = {a.arg for a in fnode.args.args + fnode.args.kwonlyargs}
+                    if len(binds) == 1 and len(stores) == 1 and it.id not in params and isinstance(binds[0].value, (ast.Tuple, ast.List)):
+                        return binds[0].value
+                    return None
+                try:
+                    r = me.repo.resolve_name(it.id, me.m)
+                except Exception:
+                    return None
+                if isinstance(r, tuple) and r and r[0] == 'assign' and r[1] is me.m and len(r[1].assigns.get(r[2], [])) == 1 \
+                        and isinstance(r[1].assigns[r[2]][0], (ast.Tuple, ast.List)) and not me.repo.table_writers(r[1].name, r[2]) \
+                        and r[2] not in me.globals_rebound:
+                    return r[1].assigns[r[2]][0]
+                return None
+            if isinstance(it, ast.Call) and isinstance(it.func, ast.Name) and not it.keywords and it.func.id not in local:
+                if it.func.id in ('zip', 'six.moves.zip') and it.args:
+                    ds = [table_display(a) for a in it.args]
+                    if any(d is None or any(isinstance(x, ast.Starred) for x in d.elts) for d in ds):
+                        return None
+                    n_ = min(len(d.elts) for d in ds)
+                    return ast.Tuple(elts=[ast.Tuple(elts=[d.elts[i] for d in ds], ctx=ast.Load()) for i in range(n_)], ctx=ast.Load())
+                if it.func.id == 'enumerate' and 1 <= len(it.args) <= 2:
+                    d = table_display(it.args[0])
+                    start = it.args[1].value if len(it.args) == 2 and isinstance(it.args[1], ast.Constant) and isinstance(it.args[1].value, int) else 0 if len(it.args) == 1 else None
+                    if d is None or start is None or any(isinstance(x, ast.Starred) for x in d.elts):
+                        return None
+                    return ast.Tuple(elts=[ast.Tuple(elts=[ast.Constant(value=start + i), x], ctx=ast.Load()) for i, x in enumerate(d.elts)], ctx=ast.Load())
+            return None
+
+        def const_items(it, allow_names=False):
+            if allow_names and not isinstance(it, (ast.Tuple, ast.List)):
+                it = table_display(it)
+            if isinstance(it, (ast.Tuple, ast.List)) and 0 < len(it.elts) <= me.UNROLL_MAX \
+                    and all((pure_display(x) if allow_names else _is_const_display(x)) for x in it.elts):
+                return list(it.elts)
+            return None
+
+        def bind(target, item):
+            """{name: constant node} for a loop / comprehension target matched against one constant item, or None"""
+            if isinstance(target, ast.Name):
+                return {target.id: item}
+            if isinstance(target, (ast.Tuple, ast.List)) and isinstance(item, (ast.Tuple, ast.List)) and len(target.elts) == len(item.elts) \
+                    and not any(isinstance(x, ast.Starred) for x in target.elts):
+                out = {}
+                for t, i in zip(target.elts, item.elts):
+                    b = bind(t, i)
+                    if b is None:
+                        return None
+                    out.update(b)
+                return out
+            return None
+
+        def subst(node, env):
+            class S(ast.NodeTransformer):
+                def visit_Name(self_, n):
+                    if isinstance(n.ctx, ast.Load) and n.id in env:
+                        return ast.copy_location(copy.deepcopy(env[n.id]), n)
+                    return n
+            return S().visit(copy.deepcopy(node))
+
+        def rebinds(nodes, names) -> bool:
+            for b in nodes:
+                for n in ast.walk(b):
+                    if isinstance(n, ast.Name) and isinstance(n.ctx, (ast.Store, ast.Del)) and n.id in names:
+                        return True
+                    if isinstance(n, (ast.FunctionDef, ast.AsyncFunctionDef, ast.Lambda, ast.ClassDef)):
+                        return True       # closures may capture the loop variable late
+            return False
+
+        class E(ast.NodeTransformer):
+            def visit_FunctionDef(self_, n):
+                return n if n is not fnode else self_.generic_visit(n)
+            visit_AsyncFunctionDef = visit_FunctionDef
+
+            def visit_Lambda(self_, n):
+                return n
+
+            def _comp(self_, n, make):
+                n = self_.generic_visit(n)
+                if len(n.generators) != 1 or n.generators[0].ifs or n.generators[0].is_async:
+                    return n
+                g = n.generators[0]
+                items = const_items(g.iter)
+                if items is None:
+                    return n
+                outs = []
+                for it in items:
+                    b = bind(g.target, it)
+                    if b is None:
+                        return n
+                    outs.append(b)
+                me.stats['unrolled'] = me.stats.get('unrolled', 0) + 1
+                return ast.copy_location(make(n, outs), n)
+
+            def visit_ListComp(self_, n):
+                return self_._comp(n, lambda n_, outs: ast.List(elts=[self_.visit(subst(n_.elt, b)) for b in outs], ctx=ast.Load()))
+
+            def visit_Call(self_, n):
+                n = self_.generic_visit(n)
+                # getattr(o, 'name') -> o.name
+                if isinstance(n.func, ast.Name) and n.func.id == 'getattr' and len(n.args) == 2 and not n.keywords \
+                        and isinstance(n.args[1], ast.Constant) and isinstance(n.args[1].value, str) and n.args[1].value.isidentifier() \
+                        and 'getattr' not in local:
+                    return ast.copy_location(ast.Attribute(value=n.args[0], attr=n.args[1].value, ctx=ast.Load()), n)
+                # (lambda a, b: E)(x, y) -> E[a := x, b := y] for simple arguments used as often as you like
+                if isinstance(n.func, ast.Lambda) and not n.keywords and not any(isinstance(a, ast.Starred) for a in n.args):
+                    la = n.func.args
+                    ps = [a.arg for a in la.args]
+                    if not (la.vararg or la.kwarg or la.kwonlyargs or la.defaults or la.posonlyargs) and len(ps) == len(n.args) \
+                            and all(_is_simple(a) or isinstance(a, ast.Constant) for a in n.args) \
+                            and not any(isinstance(y, (ast.Lambda, ast.NamedExpr, ast.Yield, ast.YieldFrom, ast.Await)) for y in ast.walk(n.func.body)):
+                        me.stats['unrolled'] = me.stats.get('unrolled', 0) + 1
+                        return ast.copy_location(subst(n.func.body, dict(zip(ps, n.args))), n)
+                # f(*[a, b]) -> f(a, b)
+                if any(isinstance(a, ast.Starred) and isinstance(a.value, (ast.List, ast.Tuple))
+                       and not any(isinstance(x, ast.Starred) for x in a.value.elts) for a in n.args):
+                    args = []
+                    for a in n.args:
+                        if isinstance(a, ast.Starred) and isinstance(a.value, (ast.List, ast.Tuple)) \
+                                and not any(isinstance(x, ast.Starred) for x in a.value.elts):
+                            args.extend(a.value.elts)
+                        else:
+                            args.append(a)
+                    n.args = args
+                return n
+
+            def visit_Subscript(self_, n):
+                n = self_.generic_visit(n)
+                if isinstance(n.ctx, ast.Load) and isinstance(n.value, ast.Name) and n.value.id not in local \
+                        and isinstance(n.slice, ast.Call) and isinstance(n.slice.func, ast.Name) and n.slice.func.id == 'bool':
+                    # a module-level ``{True: a, False: b}`` that nothing writes to, indexed by bool(c)
+                    try:
+                        r = me.repo.resolve_name(n.value.id, me.m)
+                    except Exception:
+                        r = None
+                    if isinstance(r, tuple) and r and r[0] == 'assign' and len(r[1].assigns.get(r[2], [])) == 1 \
+                            and not me.repo.table_writers(r[1].name, r[2]):
+                        try:
+                            v = me.repo.fold(r[1].assigns[r[2]][0], r[1])
+                        except Exception:
+                            v = None
+                        disp = _bool_dict_display(v)
+                        if disp is not None:
+                            n = ast.copy_location(ast.Subscript(value=disp, slice=n.slice, ctx=ast.Load()), n)
+                if isinstance(n.ctx, ast.Load) and isinstance(n.value, (ast.Tuple, ast.List)) and len(n.value.elts) == 2 \
+                        and not any(isinstance(x, ast.Starred) for x in n.value.elts):
+                    idx = n.slice
+                    if isinstance(idx, ast.Call) and isinstance(idx.func, ast.Name) and idx.func.id == 'bool' and len(idx.args) == 1 \
+                            and not idx.keywords:
+                        cond = idx.args[0]
+                    elif isinstance(idx, ast.Compare) or (isinstance(idx, ast.UnaryOp) and isinstance(idx.op, ast.Not)):
+                        cond = idx
+                    else:
+                        return n
+                    if all(_is_const_display(x) or isinstance(x, (ast.Name, ast.Attribute)) for x in n.value.elts):
+                        me.stats['unrolled'] = me.stats.get('unrolled', 0) + 1
+                        return ast.copy_location(ast.IfExp(test=cond, body=n.value.elts[1], orelse=n.value.elts[0]), n)
+                return n
+        E().visit(fnode)
+
+        def unroll_for(st: ast.For):
+            items = const_items(st.iter, allow_names=True)
+            if items is None:
+                return None
+            names = {x.id for x in ast.walk(st.target) if isinstance(x, ast.Name)}
+            if not all(isinstance(x, (ast.Name, ast.Tuple, ast.List)) for x in ast.walk(st.target)
+                       if isinstance(x, ast.expr) and not isinstance(x, ast.expr_context)):
+                return None
+            if rebinds(st.body + st.orelse, names) or _loop_level(st.body, (ast.Continue,)):
+                return None
+            # names and attributes the items mention must not change while the loop runs
+            mentioned = {x.id for it in items for x in ast.walk(it) if isinstance(x, ast.Name)}
+            if mentioned:
+                if rebinds(st.body + st.orelse, mentioned):
+                    return None
+                def local_attr(it):
+                    """an attribute read of an object held in a local / parameter (its value may change while the body runs)"""
+                    lam_params = {a.arg for y in ast.walk(it) if isinstance(y, ast.Lambda) for a in y.args.args}
+                    for y in ast.walk(it):
+                        if isinstance(y, ast.Attribute):
+                            root = y
+                            while isinstance(root, ast.Attribute):
+                                root = root.value
+                            if isinstance(root, ast.Name) and root.id in local and root.id not in lam_params:
+                                return True
+                    return False
+                if any(local_attr(it) for it in items) and \
+                        any(isinstance(n, ast.Call) or (isinstance(n, ast.Attribute) and isinstance(n.ctx, (ast.Store, ast.Del)))
+                            for b in st.body for n in ast.walk(b)):
+                    return None
+            envs = []
+            for it in items:
+                b = bind(st.target, it)
+                if b is None:
+                    return None
+                envs.append(b)
+            has_break = _loop_level(st.body, (ast.Break,))
+            if not has_break:
+                out = []
+                for b in envs:
+                    out.extend(subst(x, b) for x in st.body)
+                out.extend(copy.deepcopy(st.orelse))
+                return out
+            # the only break allowed: the last statement of a top-level ``if`` of the body (no break anywhere else)
+            idx = [i for i, x in enumerate(st.body) if isinstance(x, ast.If) and x.body and isinstance(x.body[-1], ast.Break)]
+            if len(idx) != 1:
+                return None
+            k = idx[0]
+            brk_if = st.body[k]
+            rest_probe = st.body[:k] + st.body[k + 1:] + brk_if.orelse + brk_if.body[:-1]
+            if _loop_level(rest_probe, (ast.Break,)):
+                return None
+
+            def build(i):
+                if i == len(envs):
+                    return copy.deepcopy(st.orelse)
+                b = envs[i]
+                before = [subst(x, b) for x in st.body[:k]]
+                after = [subst(x, b) for x in st.body[k + 1:]]
+                taken = [subst(x, b) for x in brk_if.body[:-1]] or [ast.Pass()]
+                not_taken = [subst(x, b) for x in brk_if.orelse] + after + build(i + 1)
+                node = ast.If(test=subst(brk_if.test, b), body=taken, orelse=not_taken)
+                ast.copy_location(node, st)
+                return before + [node]
+            return build(0)
+
+        def walk_body(body):
+            out = []
+            for st in body:
+                if isinstance(st, (ast.FunctionDef, ast.AsyncFunctionDef, ast.ClassDef)):
+                    out.append(st)
+                    continue
+                for fld in ('body', 'orelse', 'finalbody'):
+                    v = getattr(st, fld, None)
+                    if isinstance(v, list) and v and isinstance(v[0], ast.stmt):
+                        setattr(st, fld, walk_body(v))
+                if isinstance(st, ast.Try):
+                    for h in st.handlers:
+                        h.body = walk_body(h.body)
+                if isinstance(st, ast.For):
+                    un = unroll_for(st)
+                    if un is not None:
+                        me.stats['unrolled'] = me.stats.get('unrolled', 0) + 1
+                        for x in un:
+                            ast.copy_location(x, st)
+                            ast.fix_missing_locations(x)
+                        out.extend(walk_body(un) if un else [])
+                        continue
+                # setattr(o, 'name', v) as a statement -> o.name = v
+                if isinstance(st, ast.Expr) and isinstance(st.value, ast.Call) and isinstance(st.value.func, ast.Name) \
+                        and st.value.func.id == 'setattr' and len(st.value.args) == 3 and not st.value.keywords \
+                        and isinstance(st.value.args[1], ast.Constant) and isinstance(st.value.args[1].value, str) \
+                        and st.value.args[1].value.isidentifier() and 'setattr' not in local:
+                    a = st.value.args
+                    asg = ast.Assign(targets=[ast.Attribute(value=a[0], attr=a[1].value, ctx=ast.Store())], value=a[2])
+                    ast.copy_location(asg, st)
+                    ast.fix_missing_locations(asg)
+                    out.append(asg)
+                    continue
+                out.append(st)
+            return out or [ast.Pass()]
+        fnode.body = walk_body(fnode.body)
+        # substituted constants may have produced getattr(o, 'name') / (a, b)[c] forms: one more expression pass
+        E().visit(fnode)
+        fnode.body = walk_body(fnode.body)
+        ast.fix_missing_locations(fnode)
 
     # ------------------------------------------------------------------ 8. tests on literals (left behind by inlining)
     def _prune_constant_tests(self, fnode, cls, local):
@@ -275,6 +637,309 @@ class _Normalizer:
                 call.args, call.keywords = canon, []
                 self.stats['positional_calls'] = self.stats.get('positional_calls', 0) + 1
 
+    # ------------------------------------------------------------------ 0a. try statements that only report
+    def _strip_reporting_try(self, fnode, cls, local):
+        """``try: B finally: <logging calls only>`` reads as ``B``; a handler ``except X: <logging calls only>; raise`` is no
+        handler at all (it re-raises what it caught, unchanged).  Tracing added around a body must not hide the body."""
+        me = self
+        m = self.m
+
+        def reporting(stmts) -> bool:
+            return bool(stmts) and all(isinstance(st, ast.Expr) and me.repo.is_logging_call(st.value, m) or isinstance(st, ast.Pass)
+                                       for st in stmts)
+
+        def walk_body(body):
+            out = []
+            for st in body:
+                if isinstance(st, (ast.FunctionDef, ast.AsyncFunctionDef, ast.ClassDef)):
+                    out.append(st)
+                    continue
+                for fld in ('body', 'orelse', 'finalbody'):
+                    v = getattr(st, fld, None)
+                    if isinstance(v, list) and v and isinstance(v[0], ast.stmt):
+                        setattr(st, fld, walk_body(v))
+                if isinstance(st, ast.Try):
+                    for h in st.handlers:
+                        h.body = walk_body(h.body)
+                    if st.finalbody and reporting(st.finalbody):
+                        st.finalbody = []
+                        me.stats['reporting_try'] = me.stats.get('reporting_try', 0) + 1
+                    keep = []
+                    for h in st.handlers:
+                        b = h.body
+                        if len(b) >= 2 and isinstance(b[-1], ast.Raise) and b[-1].exc is None and reporting(b[:-1]):
+                            me.stats['reporting_try'] = me.stats.get('reporting_try', 0) + 1
+                            continue
+                        keep.append(h)
+                    # a handler that re-raises unchanged may only be dropped when no later handler could have caught the
+                    # same exception instead (it is the last one, or everything after it was dropped as well)
+                    if len(keep) != len(st.handlers) and (not keep or st.handlers.index(keep[-1]) < min(
+                            i for i, h in enumerate(st.handlers) if h not in keep)):
+                        st.handlers = keep
+                    if not st.handlers and not st.finalbody:
+                        out.extend(st.body + st.orelse)
+                        continue
+                out.append(st)
+            return out
+        fnode.body = walk_body(fnode.body)
+
+    # ------------------------------------------------------------------ 0b. with-statements over the package's own little managers
+    def _cm_class(self, call):
+        """(class info, {field: ctor argument}, enter value expr or 'self' / None, exit plan) for ``K(args)`` where K is a class
+        introduced after the pinned tree whose __init__ only stores its parameters, whose __enter__ returns self / None / one
+        of those fields and whose __exit__ never suppresses; else None.  exit plan = (unconditional statements, [(exception
+        class expr or None for "any", statements)]) with fields still written ``self._x``."""
+        from .srcmodel import ClassRef
+        try:
+            r = self.repo.resolve_expr(call.func, self.m)
+        except Exception:
+            return None
+        if not isinstance(r, ClassRef):
+            return None
+        try:
+            k = self.repo.cls(r.module, r.name)
+        except Exception:
+            return None
+        if not self.repo.is_helper_class(k) or k.bases or any(b not in ('object',) for b in [ast.unparse(x) for x in k.node.bases]):
+            return None
+        init, enter, exit_ = k.methods.get('__init__'), k.methods.get('__enter__'), k.methods.get('__exit__')
+        if enter is None or exit_ is None or set(k.methods) - {'__init__', '__enter__', '__exit__', '__repr__'}:
+            return None
+        fields: Dict[str, ast.expr] = {}
+        if init is not None:
+            ps = [a.arg for a in init.node.args.args][1:]
+            if init.node.args.vararg or init.node.args.kwarg or init.node.args.kwonlyargs:
+                return None
+            if any(isinstance(a, ast.Starred) for a in call.args) or any(kw.arg is None for kw in call.keywords) or len(call.args) > len(ps):
+                return None
+            bind = dict(zip(ps, call.args))
+            for kw in call.keywords:
+                if kw.arg not in ps or kw.arg in bind:
+                    return None
+                bind[kw.arg] = kw.value
+            dfl = init.node.args.defaults
+            for p_, d_ in zip(ps[len(ps) - len(dfl):], dfl):
+                bind.setdefault(p_, d_)
+            if set(bind) != set(ps):
+                return None
+            for st in _body(init.node):
+                if isinstance(st, ast.Assign) and len(st.targets) == 1 and isinstance(st.targets[0], ast.Attribute) \
+                        and isinstance(st.targets[0].value, ast.Name) and st.targets[0].value.id == init.node.args.args[0].arg \
+                        and isinstance(st.value, ast.Name) and st.value.id in bind:
+                    fields[st.targets[0].attr] = bind[st.value.id]
+                else:
+                    return None
+        elif call.args or call.keywords:
+            return None
+        # __enter__
+        eb = _body(enter.node)
+        eslf = enter.node.args.args[0].arg
+        if len(eb) != 1 or not isinstance(eb[0], ast.Return):
+            return None
+        ev = eb[0].value
+        if ev is None or (isinstance(ev, ast.Constant) and ev.value is None):
+            enter_val = None
+        elif isinstance(ev, ast.Name) and ev.id == eslf:
+            enter_val = 'self'
+        elif isinstance(ev, ast.Attribute) and isinstance(ev.value, ast.Name) and ev.value.id == eslf and ev.attr in fields:
+            enter_val = fields[ev.attr]
+        else:
+            return None
+        # __exit__
+        xa = [a.arg for a in exit_.node.args.args]
+        if len(xa) != 4:
+            return None
+        xslf, et = xa[0], xa[1]
+        xb = list(_body(exit_.node))
+        if xb and isinstance(xb[-1], ast.Return):
+            rv = xb[-1].value
+            if not (rv is None or (isinstance(rv, ast.Constant) and rv.value in (False, None))):
+                return None
+            xb = xb[:-1]
+        if any(isinstance(n, ast.Return) for st in xb for n in ast.walk(st)):
+            return None
+        uncond: List[ast.stmt] = []
+        conds: List[Tuple[Optional[ast.expr], List[ast.stmt]]] = []
+
+        def mentions_exc(node) -> bool:
+            return any(isinstance(n, ast.Name) and n.id in xa[1:] for n in ast.walk(node))
+        for st in xb:
+            if not mentions_exc(st):
+                if conds:
+                    return None        # unconditional work after conditional work: order not expressible as try/except/finally
+                uncond.append(st)
+                continue
+            if uncond or not isinstance(st, ast.If) or st.orelse or mentions_exc(ast.Module(body=st.body, type_ignores=[])):
+                return None
+            t = st.test
+            exc_cls = None
+            ok = False
+            # exc_type is not None [and issubclass(exc_type, X)]
+            parts = t.values if isinstance(t, ast.BoolOp) and isinstance(t.op, ast.And) else [t]
+            if parts and isinstance(parts[0], ast.Compare) and len(parts[0].ops) == 1 and isinstance(parts[0].ops[0], ast.IsNot) \
+                    and isinstance(parts[0].left, ast.Name) and parts[0].left.id == et \
+                    and isinstance(parts[0].comparators[0], ast.Constant) and parts[0].comparators[0].value is None:
+                if len(parts) == 1:
+                    ok, exc_cls = True, None
+                elif len(parts) == 2 and isinstance(parts[1], ast.Call) and isinstance(parts[1].func, ast.Name) \
+                        and parts[1].func.id == 'issubclass' and len(parts[1].args) == 2 \
+                        and isinstance(parts[1].args[0], ast.Name) and parts[1].args[0].id == et:
+                    ok, exc_cls = True, parts[1].args[1]
+            if not ok:
+                return None
+            conds.append((exc_cls, st.body))
+        return k, fields, enter_val, (xslf, uncond, conds)
+
+    def _inline_context_managers(self, fnode, cls, local):
+        """``with K(a) as v: BODY`` over such a manager reads as the try statement its __exit__ stands for:
+        ``try: BODY  except X: <conditional part>; raise  finally: <unconditional part>`` with the fields replaced by the
+        constructor arguments (bound to temporaries first unless they are plain names / attribute chains).  A
+        ``@contextlib.contextmanager`` generator helper with a single ``yield`` is spliced around BODY the same way."""
+        me = self
+
+        def fields_subst(stmts, xslf, fields):
+            class S(ast.NodeTransformer):
+                def visit_Attribute(self_, n):
+                    n = self_.generic_visit(n)
+                    if isinstance(n.value, ast.Name) and n.value.id == xslf and n.attr in fields and isinstance(n.ctx, ast.Load):
+                        return copy.deepcopy(fields[n.attr])
+                    return n
+            return [S().visit(copy.deepcopy(x)) for x in stmts]
+
+        def rewrite(st: ast.With):
+            if len(st.items) != 1:
+                return None
+            it = st.items[0]
+            if not isinstance(it.context_expr, ast.Call):
+                return None
+            info = me._cm_class(it.context_expr)
+            if info is None:
+                return me._splice_generator_cm(st, cls, local)
+            k, fields, enter_val, (xslf, uncond, conds) = info
+            pre: List[ast.stmt] = []
+            fields = dict(fields)
+            for f_, a_ in list(fields.items()):
+                if not (_is_simple(a_) or isinstance(a_, ast.Constant)):
+                    me.counter += 1
+                    tmp = '__cm%d_%s' % (me.counter, f_.lstrip('_'))
+                    pre.append(ast.Assign(targets=[ast.Name(id=tmp, ctx=ast.Store())], value=a_))
+                    fields[f_] = ast.Name(id=tmp, ctx=ast.Load())
+            if it.optional_vars is not None:
+                if enter_val is None or enter_val == 'self':
+                    return None      # the manager object itself is used by the body
+                if not isinstance(it.optional_vars, ast.Name):
+                    return None
+                val = enter_val
+                for f_, a_ in fields.items():
+                    if val is a_:
+                        val = a_
+                pre.append(ast.Assign(targets=[ast.Name(id=it.optional_vars.id, ctx=ast.Store())], value=copy.deepcopy(
+                    next((fields[f_] for f_, a_ in info[1].items() if a_ is enter_val), enter_val))))
+            handlers = []
+            for exc_cls, body in conds:
+                hb = fields_subst(body, xslf, fields) + [ast.Raise(exc=None, cause=None)]
+                handlers.append(ast.ExceptHandler(type=copy.deepcopy(exc_cls) if exc_cls is not None else ast.Name(id='BaseException', ctx=ast.Load()),
+                                                  name=None, body=hb))
+            fin = fields_subst(uncond, xslf, fields)
+            if not handlers and not fin:
+                new = pre + st.body
+            else:
+                new = pre + [ast.Try(body=st.body, handlers=handlers, orelse=[], finalbody=fin)]
+            for x in new:
+                ast.copy_location(x, st)
+                ast.fix_missing_locations(x)
+            me.stats['context_managers'] = me.stats.get('context_managers', 0) + 1
+            return new
+
+        def walk_body(body):
+            out = []
+            for st in body:
+                if isinstance(st, (ast.FunctionDef, ast.AsyncFunctionDef, ast.ClassDef)):
+                    out.append(st)
+                    continue
+                for fld in ('body', 'orelse', 'finalbody'):
+                    v = getattr(st, fld, None)
+                    if isinstance(v, list) and v and isinstance(v[0], ast.stmt):
+                        setattr(st, fld, walk_body(v))
+                if isinstance(st, ast.Try):
+                    for h in st.handlers:
+                        h.body = walk_body(h.body)
+                if isinstance(st, ast.With):
+                    new = rewrite(st)
+                    if new is not None:
+                        out.extend(new)
+                        continue
+                out.append(st)
+            return out
+        fnode.body = walk_body(fnode.body)
+
+    def _splice_generator_cm(self, st: ast.With, cls, local):
+        """``with helper(args) as v: BODY`` where helper is a ``@contextmanager`` generator introduced after the pinned tree,
+        with exactly one statement-level ``yield``: the generator's body with BODY in place of the yield"""
+        it = st.items[0]
+        call = it.context_expr
+        h = self._helper_of(call, cls)
+        fi = None
+        if h is not None:
+            fi = h[0]
+        else:
+            try:
+                from .srcmodel import FuncRef
+                r = self.repo.resolve_expr(call.func, self.m)
+                if isinstance(r, FuncRef) and r.module == self.m.name:
+                    f0 = self.repo.func(r.module, r.qualname)
+                    if self.repo.is_helper(f0) or f0.key not in __import__('pnd_static.oracles.inventory', fromlist=['FUNCTIONS']).FUNCTIONS:
+                        fi = f0
+            except Exception:
+                fi = None
+        if fi is None or fi.module is not self.m:
+            return None
+        decos = [ast.unparse(d) for d in fi.node.decorator_list]
+        if not any(d.split('.')[-1] == 'contextmanager' for d in decos) or len(decos) != 1:
+            return None
+        yields = [n for n in ast.walk(fi.node) if isinstance(n, (ast.Yield, ast.YieldFrom))]
+        if len(yields) != 1 or isinstance(yields[0], ast.YieldFrom):
+            return None
+        # bind parameters like any helper: reuse _expand on a copy whose decorator is gone
+        saved = fi.node.decorator_list
+        fi.node.decorator_list = []
+        try:
+            exp = self._expand(fi, h[1] if h is not None else None, call, allow_yield=True)
+        finally:
+            fi.node.decorator_list = saved
+        if exp is None:
+            return None
+        gbody, _ret = exp
+        found = [0]
+        body = st.body
+        target = it.optional_vars
+
+        class Y(ast.NodeTransformer):
+            def visit_FunctionDef(self_, n):
+                return n
+
+            def visit_Expr(self_, n):
+                if isinstance(n.value, ast.Yield):
+                    found[0] += 1
+                    out = []
+                    if target is not None:
+                        val = n.value.value if n.value.value is not None else ast.Constant(value=None)
+                        out.append(ast.Assign(targets=[copy.deepcopy(target)], value=val))
+                    out.extend(body)
+                    return out
+                return n
+        new = []
+        for x in gbody:
+            r = Y().visit(x)
+            new.extend(r if isinstance(r, list) else [r])
+        if found[0] != 1:
+            return None
+        for x in new:
+            ast.copy_location(x, st)
+            ast.fix_missing_locations(x)
+        self.stats['context_managers'] = self.stats.get('context_managers', 0) + 1
+        return new
+
     # ------------------------------------------------------------------ 0. read-only properties introduced as names
     def _collect_properties(self):
         """``@property def is_idle(self): return <expr>`` that did not exist when the rule instances were confirmed, has no
@@ -282,6 +947,7 @@ class _Normalizer:
         ``x.is_idle`` can only be this property, and reads as ``<expr>`` with ``self`` := ``x``."""
         from .oracles.inventory import FUNCTIONS
         self.props: Dict[str, Tuple[object, ast.expr]] = {}
+        self.class_props: Dict[str, Dict[str, Tuple[object, ast.expr]]] = {}
         defs: Dict[str, List[object]] = {}
         stored: Set[str] = set()
         for m in self.repo.modules.values():
@@ -300,8 +966,9 @@ class _Normalizer:
         for m in self.repo.modules.values():
             for c in m.classes.values():
                 for name, fi in c.methods.items():
-                    if fi.kind != 'property' or fi.key in FUNCTIONS or name in stored or len(defs.get(name, [])) != 1:
+                    if fi.kind != 'property' or fi.key in FUNCTIONS or name in c.setters:
                         continue
+                    unique = name not in stored and len(defs.get(name, [])) == 1
                     if len(fi.node.decorator_list) != 1 or len(fi.node.args.args) != 1:
                         continue
                     body = _body(fi.node)
@@ -340,7 +1007,64 @@ class _Normalizer:
                             return n
                     e = F().visit(copy.deepcopy(e))
                     self.m = saved_m
-                    self.props[name] = (fi, e)
+                    if unique:
+                        self.props[name] = (fi, e)
+                    self.class_props.setdefault(c.key, {})[name] = (fi, e)
+
+    def _field_classes(self, c) -> Dict[str, object]:
+        """{attribute: class} for the attributes of ``c``'s instances that only ever hold ``None`` or an instance of one
+        package class: every store to an attribute of that name anywhere in the package is ``None`` or a constructor call of
+        that class"""
+        cache = getattr(self, '_field_class_cache', None)
+        if cache is None:
+            from .srcmodel import ClassRef
+            by_attr: Dict[str, List[object]] = {}
+            for m in self.repo.modules.values():
+                for n in ast.walk(m.tree):
+                    tgts = []
+                    if isinstance(n, ast.Assign):
+                        tgts, val = n.targets, n.value
+                    elif isinstance(n, ast.AnnAssign) and n.value is not None:
+                        tgts, val = [n.target], n.value
+                    elif isinstance(n, ast.AugAssign):
+                        tgts, val = [n.target], None
+                    for t in tgts:
+                        if isinstance(t, ast.Attribute):
+                            k = 'other'
+                            if isinstance(val, ast.Constant) and val.value is None:
+                                k = None
+                            elif isinstance(val, ast.Call):
+                                try:
+                                    r = self.repo.resolve_expr(val.func, m)
+                                except Exception:
+                                    r = None
+                                if isinstance(r, ClassRef):
+                                    k = r
+                            by_attr.setdefault(t.attr, []).append(k)
+                        elif isinstance(t, (ast.Tuple, ast.List)):
+                            for x in ast.walk(t):
+                                if isinstance(x, ast.Attribute) and isinstance(x.ctx, ast.Store):
+                                    by_attr.setdefault(x.attr, []).append('other')
+            cache = {}
+            for a, ks in by_attr.items():
+                refs = {(k.module, k.name) for k in ks if k is not None and k != 'other'}
+                if 'other' not in ks and len(refs) == 1:
+                    mod_, name_ = next(iter(refs))
+                    try:
+                        cache[a] = self.repo.cls(mod_, name_)
+                    except Exception:
+                        pass
+            self._field_class_cache = cache
+        return cache
+
+    def _receiver_class(self, e, cls, local):
+        """the package class of the object an expression denotes, when the source says so: ``self`` inside a class, or an
+        attribute that only ever holds instances of one class"""
+        if isinstance(e, ast.Name) and e.id == 'self' and cls is not None:
+            return cls
+        if isinstance(e, ast.Attribute):
+            return self._field_classes(cls).get(e.attr)
+        return None
 
     def _inline_properties(self, fnode, cls, local):
         import builtins
@@ -374,6 +1098,18 @@ class _Normalizer:
             def visit_Attribute(self, node):
                 node = self.generic_visit(node)
                 hit = me.props.get(node.attr) if isinstance(node.ctx, ast.Load) else None
+                if hit is None and isinstance(node.ctx, ast.Load) and me.class_props:
+                    k = me._receiver_class(node.value, cls, local)
+                    if k is not None:
+                        for b in k.mro():
+                            hit = me.class_props.get(b.key, {}).get(node.attr)
+                            if hit is not None:
+                                break
+                            if node.attr in b.methods or node.attr in b.attrs:
+                                break
+                        if hit is not None and any(node.attr in s_.methods or node.attr in s_.attrs
+                                                   for s_ in me.repo.subclasses(k) if s_ is not k):
+                            hit = None
                 if hit is None or hit[0].node is fnode:
                     return node
                 fi, e = hit
@@ -422,7 +1158,7 @@ class _Normalizer:
         if hit is None or name.startswith('__') or name in self._stored_attrs():
             return None
         owner, val = hit
-        if '%s.%s' % (owner.key, name) in NAMES or not _literal_only(val):
+        if '%s.%s' % (owner.key, name) in NAMES or _known_class_attr(owner.name, name) or not _literal_only(val):
             return None
         fam = list(owner.mro()) + list(self.repo.subclasses(owner)) + list(self.repo.subclasses(kls))
         if any(k is not owner and (name in k.attrs or name in k.methods) for k in fam):
@@ -459,7 +1195,8 @@ class _Normalizer:
             # where a subclass could override it), bound once to a literal and never stored to anywhere in the package
             _, kls, name = r
             from .oracles.inventory import NAMES
-            if name in self._stored_attrs() or name.startswith('__') or '%s.%s' % (kls.key, name) in NAMES:
+            if name in self._stored_attrs() or name.startswith('__') or '%s.%s' % (kls.key, name) in NAMES \
+                    or _known_class_attr(kls.name, name):
                 return None      # (class attributes of the pinned tree are what the rules talk about: they keep their names)
             val = kls.attrs.get(name)
             if val is None or not _literal_only(val):
@@ -494,9 +1231,10 @@ class _Normalizer:
                 return None
         else:
             return None
-        if type(v) is tuple and v and all(type(x) in (int, str, bytes, float) for x in v):
-            # an immutable table of scalars reads as its literal
-            return ast.Tuple(elts=[ast.Constant(value=x) for x in v], ctx=ast.Load())
+        lit = _scalar_literal(v)
+        if lit is not None and type(v) is tuple:
+            # an immutable table of scalars (rows of scalars) reads as its literal
+            return lit
         if type(v) not in (int, str, bytes, float):
             return None
         return ast.Constant(value=v)
@@ -791,9 +1529,47 @@ class _Normalizer:
                     f0 = None
                 if f0 is not None and f0.kind in ('function', 'staticmethod') and f0.parent is None:
                     fi = f0
+                elif f0 is not None and f0.kind == 'classmethod' and f0.parent is None and _is_pure(f0):
+                    fi, recv = f0, fn.value           # ``Class.factory(...)``: cls is the class named at the call
+            elif isinstance(r, FuncRef) and r.module in self.repo.modules:
+                # a helper of another module: only when it is a single expression whose free names mean the same here
+                try:
+                    f0 = self.repo.func(r.module, r.qualname)
+                except Exception:
+                    f0 = None
+                if f0 is not None and f0.parent is None and self.repo.is_helper(f0) and _is_pure(f0) \
+                        and f0.kind in ('function', 'staticmethod', 'classmethod') and self._portable(f0):
+                    fi = f0
+                    if f0.kind == 'classmethod':
+                        recv = fn.value
         if fi is None or not (self.repo.is_helper(fi) or fi.key in getattr(self, 'force_helpers', ())):
             return None
         return fi, recv
+
+    def _portable(self, fi) -> bool:
+        """does every free name of the helper's single expression mean in this module what it means where the helper lives?"""
+        import builtins
+        body = _body(fi.node)
+        if len(body) != 1 or not isinstance(body[0], ast.Return) or body[0].value is None:
+            return False
+        params = {a.arg for a in fi.node.args.args}
+        other = fi.module
+        for x in ast.walk(body[0].value):
+            if isinstance(x, ast.Name) and x.id not in params:
+                if isinstance(x.ctx, ast.Store):
+                    return False
+                known_here = x.id in self.m.assigns or x.id in self.m.imports or x.id in self.m.functions or x.id in self.m.classes
+                known_there = x.id in other.assigns or x.id in other.imports or x.id in other.functions or x.id in other.classes
+                if not known_here and not known_there and hasattr(builtins, x.id):
+                    continue
+                try:
+                    if self.repo.resolve_name(x.id, self.m) != self.repo.resolve_name(x.id, other):
+                        return False
+                except Exception:
+                    return False
+            elif isinstance(x, (ast.Lambda, ast.ListComp, ast.SetComp, ast.DictComp, ast.GeneratorExp)):
+                return False
+        return True
 
     def _inlinable(self, fi) -> bool:
         node = fi.node
